@@ -346,8 +346,47 @@ NONFLOW_LOOP = {
 
 
 def is_shut_guard(cond):
-    s = show(cond)
-    return ("args.wells.end()" in s and "==" in s) and ("dynamicStatus" in s and "SHUT" in s) and cond.get("k") == "Bin" and cond.get("op") == "||"
+    """(<pos> == args.wells.end()) || (<...>.dynamicStatus == SHUT): both tests positive, joined by ||"""
+    parts = []
+
+    def flat(e):
+        e = strip(e)
+        if e.get("k") == "Bin" and e.get("op") == "||":
+            flat(e["c"][0])
+            flat(e["c"][1])
+        else:
+            parts.append(e)
+    flat(cond)
+    if len(parts) < 2:
+        return False
+    kinds = set()
+    for p_ in parts:
+        t = show(p_)
+        pos = p_.get("k") in ("Bin", "OpCall") and p_.get("op") == "=="
+        if "args.wells.end()" in t:
+            if not pos:
+                return False
+            kinds.add("missing")
+        elif "dynamicStatus" in t and "SHUT" in t:
+            if not pos:
+                return False
+            kinds.add("shut")
+    return kinds == {"missing", "shut"}
+
+
+def efac_in_divisor(expr, env):
+    """Is the efficiency factor used as a divisor somewhere in expr (through local initialisers)?"""
+    seen = set()
+    stack = [expr]
+    while stack:
+        e = stack.pop()
+        for n in walk(e):
+            if n["k"] == "Bin" and n.get("op") in ("/", "/=") and depends_on_efac(n["c"][1], env):
+                return True
+            if n["k"] == "Ref" and n.get("d") == "Var" and n["n"] in env and n["n"] not in seen:
+                seen.add(n["n"])
+                stack.append(env[n["n"]])
+    return False
 
 
 def exits(stmt, kinds):
@@ -569,6 +608,8 @@ def run(chk):
                         chk.violation(r_shut, key + ":order", "%s: accumulation `%s` happens before the shut-well guard" % (name, show(n)[:100]), fn["file"], n["l"])
                     if not ok_ef:
                         chk.violation(r_shut, key + ":efac", "%s: accumulation `%s` is not weighted by efac(args.eff_factors, well)" % (name, show(n)[:100]), fn["file"], n["l"])
+                    elif efac_in_divisor(n["c"][1], env):
+                        chk.violation(r_shut, key + ":efac-div", "%s: the contribution `%s` is DIVIDED by the well's efficiency factor; a well that is on stream a fraction f of the time contributes rate x f" % (name, show(n)[:100]), fn["file"], n["l"])
             else:
                 guards = [n for n in walk(fn["body"]) if n["k"] == "If" and is_shut_guard(n["cond"]) and exits(n["then"], ("Return",))]
                 chk.instance(r_shut, name + ":guard", sample=dict(primitive=name, shut_guard=bool(guards)))
@@ -756,6 +797,32 @@ def run(chk):
     chk.instance(r_ef, "accumulate", sample=muls)
     if muls != ["(eff_factor *= group_ptr.getGroupEfficiencyFactor())"] or "well.getEfficiencyFactor()" not in show(env.get("eff_factor")):
         chk.violation(r_ef, "accumulate", "setFactors: the factor is no longer well factor x product of group factors along the path: %s" % muls, sf["file"], sf["l"])
+
+    # ---- C09.accum: how SummaryState stores an increment or a value
+    r_ac = chk.rule("C09.accum", "every SummaryState::update* stores a total by ADDING the increment (+=) and any other vector by ASSIGNING the value, decided by is_total(<the keyword>), and does so on every storage it keeps for the key (the flat map and the per-well / group / connection / segment / region map alike)", floor=5)
+    for f in fx.fns:
+        if f.get("cls") != "Opm::SummaryState" or not f.get("body") or not f["n"].startswith("update") or f["n"] in ("update_elapsed", "update_udq"):
+            continue
+        refs_ = [v["n"] for n in stmt_list(f["body"]) if n["k"] == "Decl" for v in n["vars"] if v.get("ref") and isinstance(v.get("init"), dict) and any(x.get("k") == "Mem" and x.get("n", "").endswith("values") for x in walk(v["init"]))]
+        iffs_ = [n for n in stmt_list(f["body"]) if n["k"] == "If" and any(x["k"] in ("Call", "MCall") and (x.get("fn") or "").endswith("is_total") for x in walk(n["cond"]))]
+        if not refs_ and not iffs_:
+            continue
+        key = f["n"]
+        ok = False
+        det = dict(storages=refs_)
+        if len(iffs_) == 1 and iffs_[0].get("else") is not None and refs_:
+            c = strip(iffs_[0]["cond"])
+            positive = c.get("k") in ("Call", "MCall")
+            plus = sorted(strip(x["c"][0]).get("n") for x in walk(iffs_[0]["then"]) if x["k"] == "Bin" and x.get("op") == "+=")
+            other_then = [x.get("op") for x in walk(iffs_[0]["then"]) if x["k"] == "Bin" and x.get("asg") and x.get("op") != "+="]
+            asg = sorted({strip(x["c"][0]).get("n") for x in walk(iffs_[0]["else"]) if x["k"] == "Bin" and x.get("op") == "="})
+            other_else = [x.get("op") for x in walk(iffs_[0]["else"]) if x["k"] == "Bin" and x.get("asg") and x.get("op") != "="]
+            vals = {show(strip(x["c"][1])) for x in walk(iffs_[0]) if x["k"] == "Bin" and x.get("asg") and strip(x["c"][1]).get("k") == "Ref"}
+            det.update(total_branch_adds=plus, other_branch_assigns=asg, value=sorted(vals))
+            ok = positive and plus == sorted(refs_) and asg == sorted(refs_) and not other_then and not other_else and vals == {f["params"][-1]["n"]}
+        chk.instance(r_ac, key, sample=det)
+        if not ok:
+            chk.violation(r_ac, key, "SummaryState::%s must add the value to every one of its storages %s when is_total(keyword) holds and assign it to every one of them otherwise; found %s: a cumulative would be overwritten, a rate accumulated, or the two storages of one key diverge" % (f["n"], refs_, det), f["file"], f["l"])
 
     chk.assumptions += [
         "the mnemonic grammar in rules/C09.py encodes the documented Eclipse naming of summary vectors",
